@@ -99,6 +99,7 @@ ensures (*final(self)).rem() == (*old(self)).rem() - %d, Self::put_eff(old(self)
                       mode="external_body", note="Kani kx_%s" % n)
     fwd_fns[n] = Fn()
 trait_fns["limit"] = Fn(ret="r", spec="ensures r.spec_limit() == limit, r.spec_inner() == self,")
+trait_fns["writer"] = Fn(ret="r", spec="ensures r.spec_buf() == self,")
 # `chain_mut<U: BufMut>` (a bound on the trait itself inside the trait) crashes this Verus version
 # (vir/src/traits.rs:487 assertion) - not extracted; its body is `Chain::new(self, next)`, and
 # Chain::new is under contract below.
